@@ -842,17 +842,20 @@ def oanim_case(style, term, kv, height, pad, ha, va, mix=None, method=None, n=3,
 
 def oanim_corpus():
     cs = []
-    # (rendered height, pad_height, pad_width): one-line box; pad_height smaller / equal / larger by one / larger; relative
-    geo = [(1, 1, 1), (1, 1, 5), (2, 1, 4), (2, 2, 6), (1, 2, 1), (2, 5, 7), (2, -2, 0)]
+    # (rendered height, pad_height, pad_width): one-line box; pad_height smaller / equal / larger by one / larger
+    geo = [(1, 1, 1), (2, 1, 4), (2, 2, 6), (1, 2, 1), (2, 5, 7)]
+    # rotated over the identities: a wide one-line box; a terminal-relative box
+    rot = [(1, 1, 5), (2, -2, 0)]
     for k, (style, term, kv) in enumerate(OANIM_IDENT):
-        for g, (h, H, W) in enumerate(geo):
+        for g, (h, H, W) in enumerate(geo + [rot[k % 2]]):
             cs.append(oanim_case(style, term, kv, h, (W, H), (k + g) % 3, (k + 2 * g) % 3, n=2 if g % 2 else 3,
                                  method="whole" if (k + g) % 4 == 3 else None, pres=g % 2))
-    # mix both ways where the style has the parameter (iterm2 on every identity, kitty)
+    # mix both ways where the style has the parameter (iterm2 on every identity, kitty): a vertically padded box
+    # both ways, a one-line box with mix false (the path with a pre-animation step on wezterm)
     for style, term, kv in OANIM_IDENT[1:]:
         for mix in (True, False):
             cs.append(oanim_case(style, term, kv, 2, (6, 4), 1, 0 if mix else 2, mix=mix, n=2))
-            cs.append(oanim_case(style, term, kv, 1, (3, 1), 2, 1, mix=mix, n=2))
+        cs.append(oanim_case(style, term, kv, 1, (3, 1), 2, 1, mix=False, n=2))
     return cs
 
 
@@ -1096,7 +1099,7 @@ def run(ctx):
         nc, na = (70, 36) if ctx.quick else (2500, 1200)
         extra = (content_corpus() + anim_corpus() + [gen_content_case(rng) for _ in range(nc)]
                  + [gen_anim_case(rng) for _ in range(na)])
-        no = 14 if ctx.quick else 700
+        no = 10 if ctx.quick else 700
         extra += oanim_corpus() + [gen_oanim_case(rng) for _ in range(no)]
     from concurrent.futures import ThreadPoolExecutor
     with ThreadPoolExecutor(max_workers=3) as pool:   # the histories and the content / animation cases run beside the single cases
